@@ -69,7 +69,8 @@ class Player:
         except Exception as e:
             ms, exc = None, (type(e).__name__, str(e)[:120])
             self.dead = True
-        ctx = (it.context.get('v'), it.context.get('z'), len(it.context.get('w', ())))
+        ctx = (it.context.get('v'), it.context.get('z'), len(it.context.get('w', ())), len(it.context.get('u', [[]])[0]),
+               getattr(it.context.get('box'), 'n', None))
         return (sig(ms), it.configuration, ctx, exc, P.log[mark:], it.time, it.final)
 
 
